@@ -43,6 +43,10 @@ def main():
             import wbfam
 
             return wbfam.check(prop, a.tier)
+        if prop == "C05":
+            import relfam
+
+            return relfam.check(prop, a.tier)
         if prop == "C15":
             import batchfam
 
